@@ -13,7 +13,9 @@ def register(PROPS):
                  '(the whole stream must be what the limits leave of the shifted dates).  Every text goes through echs_evical_push/pull; '
                  'complete within these bounds in the thorough tier.  A further family (multi) has SEVERAL selected dates per period - '
                  'BYMONTH=1,6;BYMONTHDAY=5 / BYMONTH=12;BYMONTHDAY=1,25 / BYMONTH=1,12;BYMONTHDAY=1,31 / BYDAY=1MO,20MO (YEARLY) and BYMONTHDAY=1,28 (MONTHLY), '
-                 'each with INTERVAL 1 and 2, from 2020-01-01 - and judges every occurrence in 2023..2030 against the shifted images of the selected dates.',
+                 'each with INTERVAL 1 and 2, from 2020-01-01 - and judges every occurrence in 2023..2030 against the shifted images of the selected dates.  '
+                 'Family mstart judges FREQ=MONTHLY;BYMONTHDAY=d;SHIFT=spec from DTSTART itself on (d in {1,2,15,28..31}, DTSTART 2020-01-01/02/15/31, every spec with |N| <= 70, to 2021-06-30): '
+                 'an image on or after DTSTART of a date in DTSTART\'s month or later must occur, nothing else may.',
         'note': 'Where README + property text are silent the oracle accepts every defensible reading (see assumptions), so it is lenient there; '
                 'combined specs (SHIFT=x,yB), FREQ=MONTHLY rules other than those of the multi family, timed DTSTARTs and other BY* parts together with SHIFT/BYEASTER are not in the grammar '
                 '(C16 covers their ordering and bounds).',
@@ -29,6 +31,8 @@ def register(PROPS):
             D('c17_easter_shift', ['mode=long', 'nlist=quick', 'ymax=1945'], ['mode=long', 'nlist=all', 'ymax=1961'], label='shift-long'),
             D('c17_easter_shift', ['mode=multi', 'nlist=quick', '--sample-every', '41'], ['mode=multi', 'nlist=all', '--sample-every', '401'], label='shift-multi', shards=4),
             D('c17_easter_shift', ['mode=multi', 'nlist=quick', 'nocount=1', '--samples', '0'], label='shift-multi-asan', variant='asan', shards=4),
+            D('c17_easter_shift', ['mode=mstart', '--sample-every', '37'], label='shift-monthly-from-dtstart'),
+            D('c17_easter_shift', ['mode=mstart', 'nocount=1', '--samples', '0'], label='shift-monthly-from-dtstart-asan', variant='asan'),
             D('c17_easter_shift', ['mode=easter', '--sample-every', '61'], label='easter', shards=8),
             D('c17_easter_shift', ['mode=shift', 'fam=plain', 'nlist=quick', '--sample-every', '97'],
               ['mode=shift', 'fam=plain', 'nlist=all', '--sample-every', '1777'], label='shift-plain'),
